@@ -8,3 +8,13 @@ func init() {
 		Rules:       []ruleFn{ruleR02_1, ruleR02_2, ruleR02_3, ruleR02_4, ruleR02_5},
 	})
 }
+
+func init() {
+	register(&propertySpec{
+		ID: "C01",
+		Explanation: "decides that applying an operation is deterministic and exhaustive in the shape of the code: no identifier allocation or positioning inside a Go-map iteration; every operation type a datatype emits has a local and a remote arm; remote apply reads only transmitted fields; local and remote arms call their own variant; plus the cross-listed comparison, key-injectivity, delimiter and clock-sync rules. NOT decided: that the merge functions commute over all interleavings.",
+		Assumptions: []string{"CHA call graph restricted to the orda packages over-approximates the calls made on an apply path"},
+		Rules: []ruleFn{ruleR01_1, ruleR01_2, func(w *World, r *Report) { ruleR01_3(w, r, false) }, ruleR01_4,
+			ruleR02_1, ruleR02_2, ruleR02_4},
+	})
+}
